@@ -637,20 +637,56 @@ def _closer_edges(roles, b, lit):
 
 
 def _edges_cut(b, edges, target):
-    """every path from the entry to `target` uses one of the CFG edges (s, t) in `edges`"""
+    """every *feasible* path from the entry to `target` uses one of the CFG edges (s, t) in `edges`.  Feasibility: a
+    local that was just assigned the residual of a failed `?` (`X = from_residual(..)`) is a failure; `Try::branch(X)`
+    of it is `Break`, so the `Continue` edge of the switch on that branch result is not taken (a helper's failing exit,
+    copied in by a view, does not continue on the caller's success path)"""
+    import r_order
     cut = {(e[0], e[1]) for e in edges}
     seen = set()
-    st = [0]
+    st = [(0, frozenset(), frozenset())]          # (block, locals known to hold a failure, branch results known to be Break)
     while st:
-        x = st.pop()
-        if x in seen:
+        x, errs, brk = st.pop()
+        if (x, errs, brk) in seen or len(seen) > 20000:
             continue
-        seen.add(x)
+        seen.add((x, errs, brk))
         if x == target:
             return False
-        for y in b.succ[x]:
-            if (x, y) not in cut:
-                st.append(y)
+        blk = b.blocks[x]
+        e2, k2 = set(errs), set(brk)
+        for st_ in blk['stmts']:
+            if st_['k'] == 'assign' and not st_['pl']['p']:
+                l = st_['pl']['l']
+                rv = st_['rv']
+                src = op_local(rv['op']) if rv['k'] == 'use' and rv['op']['k'] in ('move', 'copy') and not rv['op']['pl']['p'] else None
+                e2.discard(l); k2.discard(l)
+                if src is not None and src in errs:
+                    e2.add(l)
+        t = blk['term']
+        succ = list(b.succ[x])
+        if t['k'] == 'call' and not t['dest']['p']:
+            c = b.call_at(x)
+            d = t['dest']['l']
+            e2.discard(d); k2.discard(d)
+            if c is not None and c.callee == FROM_RESIDUAL:
+                e2.add(d)
+            elif c is not None and c.callee == TRY_BRANCH and c.args and op_local(c.args[0]) in e2 and not (op_place(c.args[0]) or {}).get('p'):
+                k2.add(d)
+            succ = [t['target']] if t.get('target') is not None else []
+        elif t['k'] == 'switch':
+            o = None
+            dl = op_local(t['discr'])
+            if dl is not None:
+                for st_ in reversed(blk['stmts']):
+                    if st_['k'] == 'assign' and st_['pl']['l'] == dl and not st_['pl']['p'] and st_['rv']['k'] == 'discr' and not st_['rv']['pl']['p']:
+                        o = st_['rv']['pl']['l']
+                        break
+            if o is not None and o in k2:
+                succ = [tb for v, tb in t['targets'] if v == 1] or [t['otherwise']]
+        e2, k2 = frozenset(e2), frozenset(k2)
+        for y in succ:
+            if (x, y) not in cut and not b.blocks[y].get('cleanup'):
+                st.append((y, e2, k2))
     return True
 
 
